@@ -7,7 +7,7 @@ PID = "C06"
 def run(rep):
     H.run_h1(rep, PID, ["MC_C04_quick.cfg"], ["MC_C04_thorough.cfg"], [H.time_family],
              dict(allow_bad=0.1, one_byte=0.1, budget=0.2, faults=False), n_random=(100, 1500), max_scripts=(100, 1000),
-             time_cfgs=(["MC_Time_quick.cfg"], ["MC_Time_thorough.cfg", "MC_Time_thorough_b.cfg"]))
+             time_cfgs=(["MC_Time_quick.cfg", "MC_Time_blocked.cfg"], ["MC_Time_thorough.cfg", "MC_Time_thorough_b.cfg", "MC_Time_blocked.cfg"]))
 
 
 def replay(rep, path):
